@@ -95,6 +95,11 @@ def rs_pat(p):
 
 
 def _rs_assert(name, inner):
+    n3 = _rs_assert3(name, inner)
+    return n3 + (name.rstrip("!").split("::")[-1].startswith("debug_"),)
+
+
+def _rs_assert3(name, inner):
     nm = name.rstrip("!").split("::")[-1]
     if nm in ("assert_eq", "assert_ne", "debug_assert_eq", "debug_assert_ne"):
         for n in hirq.walk(inner):
@@ -522,6 +527,10 @@ def is_const(v):
     return v[0] == "c"
 
 
+def lin_sign(v):
+    return v[4] if len(v) > 4 else 1
+
+
 def to_bits(v):
     k = v[0]
     if k == "bits":
@@ -821,7 +830,7 @@ class Evaluator:
             c = ("pred", "assert?")
         finally:
             self.oracle, self.path = save
-        self.event("assert", c)
+        self.event("assert", c, bool(len(e) > 2 and e[2]))
         return UNIT
 
     def ev_assign(self, e, sc):
@@ -1003,7 +1012,7 @@ class Evaluator:
         if v[0] == "c":
             return C(-v[1])
         if v[0] == "lin":
-            return ("lin", v[1], v[2], True)
+            return ("lin", v[1], v[2], True, -lin_sign(v))
         return ("opq", ("neg", desc(v)))
 
     def ev_bin(self, e, sc):
@@ -1037,25 +1046,33 @@ class Evaluator:
         return ("opq", (op, desc(a), desc(b)))
 
     def lin_op(self, op, a, b):
+        """("lin", base, k, frozen, sign): value = sign * (base + k) [+ other terms once frozen].  Constants keep
+        folding into k after the value has been combined with other terms or negated (k += sign * c), so
+        `-(pos - target + 2)` and `-(pos + 2 - target)` are the same displacement."""
         def lin(v):
             if v[0] == "lin":
-                return v
+                return v if len(v) == 5 else v + (1,)
             if v[0] == "opq":
-                return ("lin", v[1], 0, False)
+                return ("lin", v[1], 0, False, 1)
             return None
-        if op in ("add", "sub") and b[0] == "c" and lin(a) and not lin(a)[3]:
-            l = lin(a)
-            return ("lin", l[1], l[2] + (b[1] if op == "add" else -b[1]), False)
-        if op == "add" and a[0] == "c" and lin(b) and not lin(b)[3]:
-            l = lin(b)
-            return ("lin", l[1], l[2] + a[1], False)
+        la, lb = lin(a), lin(b)
+        foldable = lambda l: l is not None and (not l[3] or l[1][0] == "pos")       # noqa: E731
+        if op in ("add", "sub") and b[0] == "c" and foldable(la):
+            c = b[1] if op == "add" else -b[1]
+            return ("lin", la[1], la[2] + la[4] * c, la[3], la[4])
+        if op == "add" and a[0] == "c" and foldable(lb):
+            return ("lin", lb[1], lb[2] + lb[4] * a[1], lb[3], lb[4])
+        if op == "sub" and a[0] == "c" and lb and lb[1][0] == "pos":
+            # c - (sign*(base+k) + rest) = -sign*(base + k - sign*c) - rest
+            return ("lin", lb[1], lb[2] - lb[4] * a[1], True, -lb[4])
         # anything else keeps the taint of the position/offset operand, frozen
-        for v in (a, b):
-            if v[0] == "lin" and v[1][0] == "pos":
-                return ("lin", v[1], v[2], True)
+        if a[0] == "lin" and a[1][0] == "pos":
+            return ("lin", la[1], la[2], True, la[4])
+        if b[0] == "lin" and b[1][0] == "pos":
+            return ("lin", lb[1], lb[2], True, lb[4] if op == "add" else -lb[4])
         for v in (a, b):
             if v[0] == "lin" and v[2] != 0:
-                return ("lin", v[1], v[2], True)
+                return ("lin", v[1], v[2], True, lin_sign(v))
         return ("opq", (op, desc(a), desc(b)))
 
     def mask(self, v, m):
@@ -1192,7 +1209,7 @@ class Evaluator:
                 self.event("patch", w, args[0], args[1])
                 return UNIT
             if name in POSITION_READS and not args:
-                return ("lin", ("pos", self.path.nbytes()), 0, False)
+                return ("lin", ("pos", self.path.nbytes()), 0, False, 1)
             if name == "set_position" and len(args) == 1:
                 self.event("setpos", args[0])
                 return UNIT
